@@ -75,7 +75,7 @@ func init() {
 			{"SecurityUnderlying", "securityUnderlying"}, {"SecurityNone", "securityNone"}, {"SecurityTls", "securityTls"}} {
 			def(c[1], "internal/socketace/util.go "+c[0], strConst(en, c[0], "socketace/util.go"))
 		}
-		def("protocolVersion", "internal/version/version.go ProtocolVersion", strConst(ver, "ProtocolVersion", "version.go"))
+		def("c06ProtocolVersion", "internal/version/version.go ProtocolVersion", strConst(ver, "ProtocolVersion", "version.go"))
 		def("unknownVersion", "internal/version/version.go UnknownVersion (AppVersion() of an unstamped build)", strConst(ver, "UnknownVersion", "version.go"))
 		// SupportedProtocolVersions
 		var sup []string
@@ -302,7 +302,7 @@ func init() {
 		for _, s := range sites {
 			qs = append(qs, "  "+leanStr06(s))
 		}
-		fmt.Fprintf(b, "/-- file:function:kind of every index / slice / unchecked type assertion / explicit panic call in the handshake files -/\ndef panicSites : List String := [\n%s]\n", strings.Join(qs, ",\n"))
+		fmt.Fprintf(b, "/-- file:function:kind of every index / slice / unchecked type assertion / explicit panic call in the handshake files -/\ndef c06PanicSites : List String := [\n%s]\n", strings.Join(qs, ",\n"))
 
 		// ---- C04: the mustSecure guard at the five Connect sites and Upstreams.open
 		c4 := o.w("C04.lean")
